@@ -447,6 +447,45 @@ def check_pathrel(tier, seed, work):
     return cov, tot["violations"]
 
 
+RESTRICT_CFG = """SPECIFICATION Spec
+CONSTANTS
+  Mode = "%(mode)s"
+  NPos = 8
+  MaxParts = %(parts)d
+  Depth = 2
+  MaxS = 3
+INVARIANT RangeLaws
+INVARIANT PatternLaws
+CONSTRAINT Emit
+CHECK_DEADLOCK FALSE
+"""
+
+
+def check_restrict(tier, seed, work):
+    """C06: Restrict.tla -- range/length restrictions over symbolic positions and regular
+    expressions with their bounded languages; every case is replayed on the exported
+    Validate*Restrictions functions for every base type."""
+    h, bindir = vf.prepare(work, ["us"])
+    parts = 2 if tier == "quick" else 3
+    rr = vf.run_tlc(work, "Restrict", RESTRICT_CFG % dict(mode="range", parts=parts), tag="range", timeout=1800)
+    rp = vf.run_tlc(work, "Restrict", RESTRICT_CFG % dict(mode="pattern", parts=parts), tag="pattern", timeout=1800)
+    r = run_replay(bindir, h, "restrict", ["-in", rr["out"] + "," + rp["out"], "-prop", "C06"], work, "restrict")
+    if r["evaluated"] == 0:
+        raise Infra("restrict replay evaluated nothing")
+    cov = dict(states=rr["distinct"] + rp["distinct"], transitions=rr["states"] + rp["states"],
+               traces_validated_against_impl=r["evaluated"], exhaustive=True, cases=r["distinct"],
+               samples=[dict(pattern="^é|(a|b)\\$", note="leading caret, alternation, escaped dollar tail, non-ASCII"),
+                        dict(range="[pos1..pos2] | [pos5..pos8]", value="pos4", types="int8..uint64, decimal64, string/binary length")],
+               counters=r.get("counters"),
+               explanation="ranges/lengths: every ascending sequence of at most %d disjoint parts over 8 symbolic positions x every position, "
+               "concretised for int8..int64, uint8..uint64 (type bounds, +-1, 2^63 neighbourhood), decimal64, string length in characters "
+               "(multi-byte letters) and binary length in bytes; patterns: every expression of depth <= 2 over a, b, a non-ASCII letter, "
+               "[ab], concatenation, alternation, * and ?, x {no anchor, leading ^} x {none, $, \\$}: 24 024 patterns x 156 strings over "
+               "{a,b,non-ASCII,^,$} of length <= 3, plus two-pattern conjunction and posix-pattern precedence; TLC computes each bounded "
+               "language under the XSD and the anchor reading, only strings on which both agree are compared." % parts)
+    return cov, r.get("violations") or []
+
+
 PIPELINES = {
     "C10": lambda tier, seed, work: check_tree("C10", tier, seed, work, "set,setll", ["SetGetFrame"]),
     "C12": lambda tier, seed, work: check_tree("C12", tier, seed, work, "delete", ["DeleteExact"]),
@@ -458,6 +497,7 @@ PIPELINES = {
     "C05": lambda tier, seed, work: check_pairs("C05", tier, seed, work, "c05", ["MergeLaws"]),
     "C04": check_c04,
     "C13": lambda tier, seed, work: check_gnmiset("C13", tier, seed, work, "setreq", ["SetSemantics"]),
+    "C06": check_restrict,
     "C08": check_pathstr,
     "C09": check_pathrel,
     "C15": lambda tier, seed, work: check_helpers("C15", tier, seed, work, "omap"),
